@@ -24,3 +24,37 @@ def exponLogpdf (x : α) : α := -x + Transc.log (if x < 0 then 0 else 1)
 /-- `jstats.logistic.logpdf x`: `−x − 2·log(1+e^{−x})` -/
 def logisticLogpdf (x : α) : α := -x - 2 * Transc.softplus (-x)
 end Stats
+
+/-- `log Γ` (for the Student-t normaliser) -/
+class HasLgamma (α : Type) where
+  lgamma : α → α
+
+/-- Lanczos approximation (g = 7, n = 9), |rel. error| ≲ 1e-14 for x > 0. -/
+def Float.lgammaLanczos (x : Float) : Float :=
+  let coef : List Float := [0.99999999999980993, 676.5203681218851, -1259.1392167224028,
+    771.32342877765313, -176.61502916214059, 12.507343278686905, -0.13857109526572012,
+    9.9843695780195716e-6, 1.5056327351493116e-7]
+  if x < 0.5 then
+    -- reflection
+    let y := 1 - x
+    let t := y - 1 + 7.5
+    let a := (coef.zipIdx.foldl (fun (acc : Float) (ci : Float × Nat) =>
+      if ci.2 == 0 then acc + ci.1 else acc + ci.1 / (y - 1 + ci.2.toFloat)) 0)
+    let lg := 0.5 * Float.log (2 * 3.141592653589793) + (y - 1 + 0.5) * Float.log t - t + Float.log a
+    Float.log (3.141592653589793 / Float.abs (Float.sin (3.141592653589793 * x))) - lg
+  else
+    let t := x - 1 + 7.5
+    let a := (coef.zipIdx.foldl (fun (acc : Float) (ci : Float × Nat) =>
+      if ci.2 == 0 then acc + ci.1 else acc + ci.1 / (x - 1 + ci.2.toFloat)) 0)
+    0.5 * Float.log (2 * 3.141592653589793) + (x - 1 + 0.5) * Float.log t - t + Float.log a
+
+instance : HasLgamma Float := ⟨Float.lgammaLanczos⟩
+
+namespace Stats
+variable {α : Type} [Add α] [Sub α] [Mul α] [Div α] [Neg α] [LT α] [LE α]
+  [OfNat α 0] [OfNat α 1] [OfNat α 2] [DecidableLT α] [DecidableLE α] [Transc α] [HasPi α] [HasLgamma α]
+/-- `jstats.t.logpdf x df`: `lnΓ((ν+1)/2) − lnΓ(ν/2) − ½ log(νπ) − (ν+1)/2 · log(1 + x²/ν)` -/
+def tLogpdf (x df : α) : α :=
+  HasLgamma.lgamma ((df + 1) / 2) - HasLgamma.lgamma (df / 2) - Transc.log (df * HasPi.pi) / 2
+    - (df + 1) / 2 * Transc.log (1 + x * x / df)
+end Stats
